@@ -1,0 +1,17 @@
+//go:build verif
+
+// Package verifhooks re-exports verification accessors of internal packages to
+// the external monitoring harness under /verif.  Every file in this directory
+// carries the "verif" build tag, so the package does not exist without it.
+package verifhooks
+
+import (
+	"go.nanomsg.org/mangos/v3/internal/core"
+	"go.nanomsg.org/mangos/v3/internal/verifyield"
+)
+
+// PipeIDsInUse returns the currently allocated pipe ids.
+func PipeIDsInUse() []uint32 { return core.VerifPipeIDsInUse() }
+
+// SetYield installs the function called at every named yield point.
+func SetYield(f func(point string)) { verifyield.Set(f) }
